@@ -23,7 +23,7 @@ const VcountImport = "grog/internal/zverif/vcount"
 // InstrumentCounts returns a copy of the Go source file srcPath in which every
 // function and method declaration, and every function literal bound to a name
 // (`name := func…`, `name = func…`, `var name = func…`; this is how recursive
-// closures such as FindCycle's depthFirstSearch are written) starts with
+// closures such as FindCycle's depthFirstSearch are written) and every body of a for / range loop starts with
 //
 //	vcount.Enter("<pkg>.<Func>")
 //
@@ -205,6 +205,14 @@ func (w *countWalker) walk(n ast.Node, encl string) {
 				w.walk(r, encl)
 			}
 			return false
+		case *ast.ForStmt:
+			// every loop iteration counts as well: work that is done by iterating over (or copying) a list
+			// whose length grows with the number of paths shows up even when no function is entered more often
+			w.enter(x.Body, encl+"#loop")
+			return true
+		case *ast.RangeStmt:
+			w.enter(x.Body, encl+"#loop")
+			return true
 		case *ast.ValueSpec:
 			for i, r := range x.Values {
 				if fl, ok := r.(*ast.FuncLit); ok && len(x.Names) == len(x.Values) && x.Names[i].Name != "_" {
